@@ -176,6 +176,20 @@ def Tx.answer (k : Caps) (tx : Tx) : Tx := { tx with rcpts := tx.rcpts.map k.ans
 def runHistoryCaps (k : Caps) (pool : Pool) (txs : List Tx) : List TxObs :=
   runHistory k.srvUtf8 pool (txs.map (Tx.answer k))
 
+/-! ### RFC 1870 SIZE announcements -/
+
+/-- The next hop may announce a SIZE limit in its EHLO reply, per connection (so: per recipient domain as
+spelled). `remoteDelivery.BodyNonAtomic` / `C.Data` do not look at it: the message is sent on every
+connection, and a next hop whose limit is smaller than the message refuses it after the data (552) — an
+ordinary DATA failure of THAT connection, reported for ITS `Rcpts()` and for nobody else. `tooSmall` says
+for which connection keys the announced limit is below the message size. -/
+def Tx.withSize (tooSmall : Nat → Bool) (tx : Tx) : Tx :=
+  { tx with dataFail := fun d => tx.dataFail d || tooSmall d }
+
+/-- A history against next hops that announce (and enforce) SIZE limits. -/
+def runHistorySize (k : Caps) (tooSmall : Nat → Bool) (pool : Pool) (txs : List Tx) : List TxObs :=
+  runHistoryCaps k pool (txs.map (Tx.withSize tooSmall))
+
 /-! ### LMTP next hop (`lmtpDelivery`) -/
 
 /-- `lmtpDelivery.BodyNonAtomic`: the i-th status the server sends belongs to the i-th accepted
@@ -229,5 +243,61 @@ def pipeGenerated (rs : List PipeRcpt) : List (Nat × Bool) := (pipeRecipients r
 `statusCollector` translates the key through the table (ONE look-up). -/
 def pipeTranslated (rs : List PipeRcpt) (res : Nat → Bool) : List (Nat × Bool) :=
   rs.flatMap (fun r => r.2.map (fun x => (translate (pipeTable rs) x, res x)))
+
+/-! ### recipients refused at `AddRcpt` time -/
+
+/-- The state `msgpipelineDelivery.AddRcpt` works on when targets may REFUSE an address: the delivery's own
+`originalRcpts` (newest entry first: a map, the later writer wins), what the per-recipient target holds (in
+the order it took it), and every address the targets' `AddRcpt` were called with so far (refused calls too;
+`asked2`: a second target of the destination block). Nothing in `AddRcpt` ever REMOVES anything from any of
+them: `module.Delivery` has no way to take an address back from a target, and an entry of the table may be
+what an earlier, accepted RCPT TO relies on. -/
+structure RefSt where
+  table : List (Nat × Nat) := []
+  held : List Nat := []
+  /-- `delivery.recipients` of the per-recipient target's delivery: the client-supplied address, appended once per
+  effective address the target took (what `setStatusAll` reports for when the body stage fails) -/
+  recips : List Nat := []
+  asked1 : List Nat := []
+  asked2 : List Nat := []
+
+/-- a refusal script: `(address, k)` = the k-th call (1-based) for the address is refused, `k = 0`: every call -/
+def refusesAt (script : List (Nat × Nat)) (e nth : Nat) : Bool :=
+  script.any (fun p => p.1 == e && (p.2 == 0 || p.2 == nth))
+
+/-- One `AddRcpt` call for the client-supplied address `c` whose effective addresses are `es`: for each, in
+order, the table entry is written (`if originalTo != to`), then the targets of the block are asked; the first
+refusal ends the call with an error — whatever was recorded and handed over before STAYS. `second`: the
+destination block has a second target (without per-recipient results); `rej`: effective addresses for which the
+configuration has a rejecting destination block. -/
+def pipeAddEffs (second : Bool) (x y : List (Nat × Nat)) (rej : Nat → Bool) (c : Nat) : RefSt → List Nat → RefSt × Bool
+  | st, [] => (st, true)
+  | st, e :: es =>
+    -- `rcptBlock.rejectErr`: a per-address destination block that rejects, chosen before anything is recorded
+    if rej e then (st, false) else
+    let st1 : RefSt := { st with table := if e != c then (e, c) :: st.table else st.table, asked1 := e :: st.asked1 }
+    if refusesAt x e (st1.asked1.count e) then (st1, false) else
+    let st2 : RefSt := { st1 with held := st1.held ++ [e], recips := st1.recips ++ [c] }
+    if second then
+      let st3 : RefSt := { st2 with asked2 := e :: st2.asked2 }
+      if refusesAt y e (st3.asked2.count e) then (st3, false) else pipeAddEffs second x y rej c st3 es
+    else pipeAddEffs second x y rej c st2 es
+
+/-- the client's RCPT TO sequence: the session goes on after a refused recipient -/
+def pipeAddCalls (second : Bool) (x y : List (Nat × Nat)) (rejC rej : Nat → Bool) : RefSt → List PipeRcpt → RefSt × List Bool
+  | st, [] => (st, [])
+  | st, r :: rs =>
+    -- `rejC`: the call is refused before anything happens (the rejecting block is chosen by the client-supplied
+    -- address when the rewriting modifier sits in the destination block)
+    let (st1, ok) := if rejC r.1 then (st, false) else pipeAddEffs second x y rej r.1 st r.2
+    let (st2, oks) := pipeAddCalls second x y rejC rej st1 rs
+    (st2, ok :: oks)
+
+/-- what the per-recipient target reports (`res`), through the translating `statusCollector` -/
+def RefSt.statuses (st : RefSt) (res : Nat → Bool) : List (Nat × Bool) :=
+  st.held.map (fun e => (translate st.table e, res e))
+
+/-- the body stage failed for the whole delivery: `setStatusAll`, a failure per entry of `recipients`, untranslated -/
+def RefSt.generated (st : RefSt) : List (Nat × Bool) := st.recips.map (fun c => (c, false))
 
 end MaddyVerif.StatusKeys
